@@ -347,6 +347,7 @@ type GenKind string
 const (
 	GenStruct   GenKind = "struct"   // structural enumeration, unique values
 	GenExtreme  GenKind = "extreme"  // per-type extreme values
+	GenExtremeS GenKind = "extreme-small" // the same without the 70 KiB string
 	GenRandom   GenKind = "random"   // random structure and values
 	GenRuns     GenKind = "runs"     // long stretches of identical structure (RLE-friendly levels)
 	GenBoundary GenKind = "boundary" // list lengths at level-run boundaries
@@ -369,6 +370,10 @@ func GenRecords(s *dremel.Schema, kind GenKind, n int, rng *rand.Rand, thorough 
 		big := false
 		for i := 0; i < n; i++ {
 			out = append(out, genTree(s, rngChooser{rng}, extremeVals{r: rng, longStr: true, usedBig: &big}, lensRandom))
+		}
+	case GenExtremeS:
+		for i := 0; i < n; i++ {
+			out = append(out, genTree(s, rngChooser{rng}, extremeVals{r: rng}, lensRandom))
 		}
 	case GenRandom:
 		for i := 0; i < n; i++ {
